@@ -271,7 +271,11 @@ def check_expr(ctx, r, S, stream, lines, pend, n_pts=3, oracle_only=False):
                     # gradients of norms lie ON the boundary of the dual ball: step inside by 1e-12
                     gr = gr * (1 - 1e-12)
                     st, ggr = safe_call(lambda: float(g(gr)))
-                if st == 'ok':
+                if st == 'ok' and ggr == float('inf') and stream == 'general':
+                    # a point-indicator conjugate evaluated at a rounded gradient: only the
+                    # exact stream can decide this case
+                    ctx.hit('fy-eq-skip:indicator-at-rounded-gradient')
+                elif st == 'ok':
                     xg = float(x.inner(gr))
                     ctx.case(('fy-eq', S.kind, classes) if xg != 0 else None)
                     ctx.hit('fy-eq/' + r[0])
@@ -344,6 +348,9 @@ def compare(ctx, pend, outs):
 
 
 def run(ctx, deep=False):
+    import warnings
+    warnings.simplefilter('ignore')   # NumPy RuntimeWarnings at domain boundaries (log 0, x/0)
+    np.seterr(all='ignore')
     rng = ctx.rng
     quick = ctx.quick and not deep
     lines, pend = [], []
